@@ -33,6 +33,10 @@ type T struct {
 type Case struct {
 	Tree    T
 	GroupBy []string
+	// Share: structurally equal operator sub-trees are built as ONE node object
+	// referenced from several places (a tree that is a DAG in memory); it
+	// denotes the same query as the tree with separate copies.
+	Share bool
 }
 
 func (t T) pb() *pb.Query_Expression {
@@ -52,7 +56,35 @@ func (t T) pb() *pb.Query_Expression {
 	return &pb.Query_Expression{Value: &pb.Query_Expression_Or_{Or: &pb.Query_Expression_Or{Exprs: ops}}}
 }
 
+func (t T) pbShared(memo map[string]*pb.Query_Expression) *pb.Query_Expression {
+	if t.Op == 0 {
+		return t.pb()
+	}
+	key := fmt.Sprintf("%#v", t)
+	if e, ok := memo[key]; ok {
+		return e
+	}
+	var ops []*pb.Query_Expression
+	for _, s := range t.Subs {
+		ops = append(ops, s.pbShared(memo))
+	}
+	var e *pb.Query_Expression
+	switch t.Op {
+	case 1:
+		e = &pb.Query_Expression{Value: &pb.Query_Expression_Not_{Not: &pb.Query_Expression_Not{Expr: ops[0]}}}
+	case 2:
+		e = &pb.Query_Expression{Value: &pb.Query_Expression_And_{And: &pb.Query_Expression_And{Exprs: ops}}}
+	default:
+		e = &pb.Query_Expression{Value: &pb.Query_Expression_Or_{Or: &pb.Query_Expression_Or{Exprs: ops}}}
+	}
+	memo[key] = e
+	return e
+}
+
 func (c *Case) query() *pb.Query {
+	if c.Share {
+		return &pb.Query{Expr: c.Tree.pbShared(map[string]*pb.Query_Expression{}), GroupBy: append([]string(nil), c.GroupBy...)}
+	}
 	return &pb.Query{Expr: c.Tree.pb(), GroupBy: append([]string(nil), c.GroupBy...)}
 }
 
@@ -269,6 +301,22 @@ func drawCase(t *rapid.T) *Case {
 		hugeBudget = 1
 	}
 	c := &Case{Tree: genTree(t, rapid.IntRange(0, 8).Draw(t, "depth"), rapid.IntRange(1, 6).Draw(t, "maxarity"))}
+	if rapid.IntRange(0, 9).Draw(t, "share") == 0 {
+		// the same operator node at two places of one tree
+		x := c.Tree
+		if x.Op == 0 {
+			x = T{Op: 1, Subs: []T{x}}
+		}
+		switch rapid.IntRange(0, 2).Draw(t, "sharehow") {
+		case 0:
+			c.Tree = T{Op: 2, Subs: []T{x, x}}
+		case 1:
+			c.Tree = T{Op: 3, Subs: []T{{Op: 1, Subs: []T{x}}, x}}
+		default:
+			c.Tree = T{Op: 2, Subs: []T{x, {Op: 3, Subs: []T{genTree(t, 1, 2), x}}}}
+		}
+		c.Share = true
+	}
 	n := rapid.IntRange(0, 8).Draw(t, "ngb")
 	if rapid.Bool().Draw(t, "nogb") {
 		n = 0
@@ -287,8 +335,49 @@ func replay(cf *evid.CaseFile) error {
 	return oracle(&c)
 }
 
+// big: more than 65,536 of something in one tree; manyNames: more distinct
+// column names than any table of names is likely to hold, then the first ones
+// again.
+func big(t *testing.T) {
+	leaf := func(c, v string) T { return T{Op: 0, Col: c, Val: v} }
+	for _, n := range []int{65537, 70000} {
+		var nots, pairs []T
+		for i := 0; i < n; i++ {
+			nots = append(nots, T{Op: 1, Subs: []T{leaf("a", "1")}})
+			pairs = append(pairs, T{Op: 2, Subs: []T{leaf("a", "1"), leaf("b", "2")}})
+		}
+		run(t, &Case{Tree: T{Op: 2, Subs: nots}}, "big")
+		run(t, &Case{Tree: T{Op: 3, Subs: pairs}}, "big")
+		deep := leaf("a", "1")
+		for i := 0; i < n; i++ {
+			deep = T{Op: 1, Subs: []T{deep}}
+		}
+		run(t, &Case{Tree: deep}, "big")
+		gb := make([]string, n)
+		for i := range gb {
+			gb[i] = "f"
+		}
+		run(t, &Case{Tree: leaf("a", "1"), GroupBy: gb}, "big")
+	}
+}
+
+func manyNames(t *testing.T, n int) {
+	for round := 0; round < 2; round++ {
+		lim := n
+		if round == 1 {
+			lim = 150
+		}
+		for i := 0; i < lim; i++ {
+			name := fmt.Sprintf("attr_%d", i)
+			run(t, &Case{Tree: T{Op: 2, Subs: []T{{Op: 0, Col: name, Val: "1"}, {Op: 1, Subs: []T{{Op: 0, Col: "x" + name, PH: 1}}}}}, GroupBy: []string{name, "g" + name}}, "many-names")
+		}
+	}
+}
+
 func TestQuick(t *testing.T) {
 	fix.Pinned(t, prop, replay)
+	big(t)
+	manyNames(t, 1300)
 	exhaustive(t, 2)
 	fix.Check(t, "random", 20000, func(rt *rapid.T) { run(rt, drawCase(rt), "random") })
 }
@@ -296,6 +385,10 @@ func TestQuick(t *testing.T) {
 func TestThorough(t *testing.T) {
 	if shard, _ := evid.Shard(); shard == 0 {
 		fix.Pinned(t, prop, replay)
+	}
+	if shard, _ := evid.Shard(); shard == 1 {
+		big(t)
+		manyNames(t, 70000)
 	}
 	exhaustive(t, 3)
 	fix.Check(t, "random", 100000, func(rt *rapid.T) { run(rt, drawCase(rt), "random") })
